@@ -71,7 +71,7 @@ func init() {
 	})
 
 	routeBounds := map[string]string{
-		"quick":    "12 curated rule sets (2 methods, literals aa/bb, *, **, {f}, {f=aa/*}, {f=aa/**}, {f=aa/bb/**}, {f=*/bb}, nested field paths, :vv verbs, GET/POST/custom-* bindings, plus the implicit /Svc/Method rules) x request verbs {GET, POST, other} x every ASCII path of 1..8 bytes starting with '/' (bytes symbolic)",
+		"quick":    "13 curated rule sets (2 methods, literals aa/bb, *, **, {f}, {f=aa/*}, {f=aa/**}, {f=aa/bb/**}, {f=*/bb}, nested field paths, :vv verbs, GET/POST/custom-* bindings, plus the implicit /Svc/Method rules) x request verbs {GET, POST, other} x every ASCII path of 1..8 bytes starting with '/' (bytes symbolic)",
 		"thorough": "same rule sets x every ASCII path of 1..10 bytes",
 	}
 	routeAssume := []string{"fake protoreflect descriptors (plain Go, embedded interfaces) drive the real addRule/match", "protoreflect.Value leaf helpers (typeOf, valueOfString/Bytes/Iface, get*) modelled; its public methods interpreted from source", "the path starts with '/' (Mux.ServeHTTP prepends one)", "bytes < 0x80 (ASCII tier)", "status.Errorf / fmt texts are placeholders"}
@@ -378,4 +378,9 @@ func init() {
 		HarnessSpec{Name: "VerifH_serveGRPC_compressed", Covers: []string{"compressed-reply", "compressed-request", "plain", "flag-without-encoding"}})
 	ext("C08", "gRPC per-message compression through the driver",
 		HarnessSpec{Name: "VerifH_serveGRPC_compressed", Covers: []string{"compressed-request"}})
+
+	norm := "path normalisation through ServeHTTP: rules GET /aa/{f} and GET /aa/{f=bb/*} plus the implicit binding, every ASCII request path of 0..7 bytes (with and without leading '/', trailing '/', '//')"
+	ext("C01", norm, HarnessSpec{Name: "VerifH_serveHTTP_path", Covers: []string{"dispatched", "not-dispatched", "trailing-slash-stripped", "implicit"}})
+	ext("C02", norm, HarnessSpec{Name: "VerifH_serveHTTP_path", Covers: []string{"dispatched", "not-dispatched"}})
+	ext("C09", norm, HarnessSpec{Name: "VerifH_serveHTTP_path", Covers: []string{"dispatched", "not-dispatched"}})
 }
